@@ -65,7 +65,11 @@ TWrite == /\ IsEvent("write") /\ UNCHANGED <<objs, errloc>>
 TFree == IsEvent("free") /\ objs' = [objs EXCEPT ![Ev.h] = Null] /\ UNCHANGED <<fs, errloc>> /\ Check(Ev.ret_null, [ret_null |-> TRUE])
 TDump == /\ IsEvent("dump") /\ UNCHANGED <<fs, objs, errloc>>
          /\ IF ~Live(Ev.h) THEN Check(Ev.isnull, [isnull |-> TRUE])
-            ELSE Check(~Ev.isnull /\ Ev.st = DumpE(objs[Ev.h]) /\ Ev.path = objs[Ev.h].path, [st |-> DumpE(objs[Ev.h]), path |-> objs[Ev.h].path])
+            ELSE LET full == DumpE(objs[Ev.h])
+                     \* comments are compared only on request (they are beyond the properties whose checks use this module)
+                     want == IF Ev.cmp_comments THEN full
+                             ELSE [full EXCEPT !.ents = [i \in 1..Len(full.ents) |-> [full.ents[i] EXCEPT !.cb = <<>>, !.ca = <<>>]]] IN
+                 Check(~Ev.isnull /\ Ev.st = want /\ Ev.path = objs[Ev.h].path, [st |-> want, path |-> objs[Ev.h].path])
 TErrLoc == /\ IsEvent("errloc") /\ UNCHANGED <<fs, objs, errloc>>
            /\ Check(errloc.valid => (Ev.file = errloc.file /\ Ev.line = errloc.line), errloc)
 Next == TReset \/ TFile \/ TNew \/ TReadFile \/ TReadDirs \/ TSet \/ TGet \/ TMerge \/ TWrite \/ TFree \/ TDump \/ TErrLoc
